@@ -14,7 +14,7 @@
      4. size_hint brackets the number of items still to come (upstream hints truthful).
    Upstream scripts may contain End in the middle (a source that resumes after reporting
    the end), so clause 3 is a theorem about the combinator, not an assumption. *)
-From HV Require Import Pull.Model Pull.PCore Pull.POne Pull.PTwo Pull.PSpec Pull.PCompose Pull.Corr Pull.PSound Pull.PHolds.
+From HV Require Import Pull.Model Pull.PCore Pull.POne Pull.PTwo Pull.PSpec Pull.PCompose Pull.Corr Pull.PSound Pull.PHolds Pull.ModelX Pull.PX.
 Open Scope N_scope.
 
 Theorem C11_map : forall (A B : Type) (uh : script A -> hintT), truthful uh -> forall f : A -> B,
@@ -202,6 +202,109 @@ Theorem C11_checker_complete : forall c n, pre_case c = true ->
   tr_items (run_case c n) <> None -> C11_holds_b c (run_case c n) = true.
 Proof. exact C11_model_holds. Qed.
 Print Assumptions C11_checker_complete.
+
+(* ---- size hints through composition ---- *)
+(* [outer uh] is a combinator as a function of its upstream's size_hint; its spec is assumed for
+   every truthful hint (all sixteen theorems above have this form).  Over the behaviour script
+   of an inner machine meeting its own spec, reading the inner machine's REAL size_hint
+   ([guard] is transparent there), the pipeline yields refo (refi s) and its size_hint brackets
+   that many items.  PCompose.beh_suffix / uh_of_rebase show that every later state of the
+   pipeline is again of this form. *)
+Theorem C11_compose_hints : forall (A B : Type) (inner : machine A)
+    (prei fini : St inner -> Prop) (refi : St inner -> list A),
+  C11_spec inner prei fini refi ->
+  forall (outer : (script A -> hintT) -> machine B)
+    (embed : forall uh, script A -> St (outer uh))
+    (pre fin : forall uh, St (outer uh) -> Prop) (ref : forall uh, St (outer uh) -> list B)
+    (refo : list A -> list B),
+  (forall uh, truthful uh -> C11_spec (outer uh) (pre uh) (fin uh) (ref uh)) ->
+  (forall uh l, ref uh (embed uh l) = refo (items l)) ->
+  forall s, prei s ->
+  exists n0, forall H, (n0 <= H)%nat ->
+    let uh := guard (uh_of inner s H) in
+    let st := embed uh (beh inner H s) in
+    pre uh st ->
+    uh (beh inner H s) = hint inner s /\
+    (exists st', runs_to (outer uh) st (refo (refi s)) st') /\
+    hint_ok (hint (outer uh) st) (len (refo (refi s))).
+Proof. exact @C11_compose_hints. Qed.
+Print Assumptions C11_compose_hints.
+
+(* ---- the rest of dfir_pipes::pull (Pull/ModelX.v) ---- *)
+(* stream, stream_compat, either relay the wrapped source / stream one to one *)
+Theorem C11_relay : forall (A : Type) (uh : script A -> hintT), truthful uh ->
+  C11_spec (src_m uh) always (fun l => fused_b l = true) (fun l => items l).
+Proof. exact @src_spec. Qed.
+Print Assumptions C11_relay.
+
+(* flat_map_stream (flatten_stream with g = fun s => s): the inner stream g a is itself a
+   script; state = (current inner stream, upstream script) *)
+Theorem C11_flat_map_stream : forall (A B : Type) (g : A -> script B) (ih : script B -> hintT),
+  truthful ih ->
+  C11_spec (fms_m g ih) always (fun st => fused_b (snd st) = true)
+           (fun st => (match fst st with Some s => items s | None => [] end)
+                      ++ flat_map (fun a => items (g a)) (items (snd st))).
+Proof. exact @fms_spec. Qed.
+Print Assumptions C11_flat_map_stream.
+
+(* filter_map_async: f a = (polls the future stays pending, its output); no item is lost or
+   duplicated across those Pendings; size_hint is right only while no item is in flight *)
+Theorem C11_filter_map_async_partial : forall (A B : Type) (uh : script A -> hintT)
+    (f : A -> nat * option B), truthful uh ->
+  (forall st, exists st', runs_to (fma_m uh f) st (fma_ref f st) st') /\
+  (forall st n, exists rest, fma_ref f st = emitted (polls (fma_m uh f) n st) ++ rest) /\
+  (forall st s', fused_b (snd st) = true -> pull1 (fma_m uh f) st = (Ended, s') ->
+                 ended_forever (fma_m uh f) s') /\
+  (forall st, fut_out (fst st) = [] -> hint_ok (hint (fma_m uh f) st) (len (fma_ref f st))).
+Proof. exact @fma_spec_partial. Qed.
+Print Assumptions C11_filter_map_async_partial.
+
+(* FINDING: with an item in flight the reported upper bound is one too small *)
+Theorem C11_filter_map_async_hint_refuted :
+  exists (uh : script N -> hintT) (f : N -> nat * option N) (st : fma_st N N),
+    truthful uh /\ (exists st0, st = snd (pull1 (fma_m uh f) st0)) /\
+    ~ hint_ok (hint (fma_m uh f) st) (len (fma_ref f st)).
+Proof. exact fma_hint_refuted. Qed.
+Print Assumptions C11_filter_map_async_hint_refuted.
+
+(* stream_ready: a Pending stream is reported as the end: items = those before the first
+   Pending / end; only the upper bound of the stream's size_hint carries over *)
+Theorem C11_stream_ready_partial : forall (A : Type) (uh : script A -> hintT), truthful uh ->
+  (forall l, exists l', runs_to (sready_m uh) l (items_now l) l') /\
+  (forall l, match snd (hint (sready_m uh) l) with Some u => len (items_now l) <= u | None => True end).
+Proof. intros A uh T. split; [apply sready_runs|apply sready_hint_upper; exact T]. Qed.
+Print Assumptions C11_stream_ready_partial.
+
+(* FINDING: the lower bound does not *)
+Theorem C11_stream_ready_hint_refuted :
+  exists (uh : script N -> hintT) (l : script N),
+    truthful uh /\ ~ hint_ok (hint (sready_m uh) l) (len (items_now l)).
+Proof. exact sready_hint_lower_refuted. Qed.
+Print Assumptions C11_stream_ready_hint_refuted.
+
+(* collect, for_each, accumulate_all: polled to completion, the effect has been applied to
+   exactly the items before the first end, in order; one Pending per scripted Pending; the pull
+   is never polled after its end (what is left of the script is untouched) *)
+Theorem C11_consume : forall (A Acc : Type) (step : Acc -> A -> Acc) (l : script A) n acc,
+  (length l < n)%nat ->
+  drive_run step n acc l = Some (pend_count l, (fold_left step (items l) acc, after_end l)).
+Proof. exact @drive_run_spec. Qed.
+Print Assumptions C11_consume.
+
+Theorem C11_collect : forall (A : Type) (l : script A),
+  drive_run (fun acc x => acc ++ [x]) (S (length l)) [] l = Some (pend_count l, (items l, after_end l)).
+Proof. exact @collect_spec. Qed.
+Print Assumptions C11_collect.
+
+(* send_push / send_sink: the downstream is sent exactly the items, in order, whatever its
+   poll_ready / poll_finalize answers; the pull is not polled after its end *)
+Theorem C11_send : forall wh uh n s p s', PX.send_run n wh uh s = Some (p, s') ->
+  if pull_ended s
+  then PX.sends (p_log (s_push s')) = PX.sends (p_log (s_push s)) /\ s_script s' = s_script s
+  else PX.sends (p_log (s_push s')) = PX.sends (p_log (s_push s)) ++ items (s_script s) /\
+       s_script s' = after_end (s_script s).
+Proof. exact @send_run_spec. Qed.
+Print Assumptions C11_send.
 
 (* non-vacuity: concrete scripts with Pend between the two sides of a zip, inside a flat_map's
    inner iterator, and a non-fused source under Fuse *)
